@@ -1479,7 +1479,7 @@ def write_translated(ns, items):
     if path.exists() and path.read_text() == text:
         return False
     path.parent.mkdir(parents=True, exist_ok=True)
-    path.write_text(text)
+    vlib.atomic_write(path, text)
     return True
 
 
